@@ -492,11 +492,13 @@ class _SA(tc.StateBase):
 
 class _Impl:
     n = 0
+    with_call_state = True  # a stream method may return no call state (call_state_bytes == b"")
 
     def m(self):  # type: ignore[no-untyped-def]
         _Impl.n += 1
         k = _Impl.n
-        return tc.StreamResult(_SA(b"\xffstate%d" % k), _CS(b"cs%d" % k), tc.FakeSchema(b"S:out%d" % k), tc.FakeSchema(b"S:in%d" % k))
+        cs = _CS(b"cs%d" % k) if _Impl.with_call_state else None
+        return tc.StreamResult(_SA(b"\xffstate%d" % k), cs, tc.FakeSchema(b"S:out%d" % k), tc.FakeSchema(b"S:in%d" % k))
 
 
 _IDS = [
@@ -597,10 +599,11 @@ def _expected(i1: int, r: int, warm: bool, tok_sel: int, call_present: bool, cal
     return ("err", _SIG_CALL)
 
 
-def _scenario(i1: int, r: int, warm: bool):  # type: ignore[no-untyped-def]
+def _scenario(i1: int, r: int, warm: bool, with_cs: bool = True):  # type: ignore[no-untyped-def]
     """Two streams of method m: stream 1 opened by identity i1, stream 2 by the requester r, at t=100."""
     tc.reset(now=100)
     _Impl.n = 0
+    _Impl.with_call_state = with_cs
     srv = tc.FakeServer(_Impl(), {"m": tc.MethodInfo("m")})
     app = tc.FakeApp(srv, {"m": _SA}, _KEY, _TTL, 8 if warm else 0)
     md1 = tc.do_init(app, "m", _IDS[i1])
@@ -615,9 +618,9 @@ def _pick_concrete(sel: int, n: int) -> int:
     raise AssertionError
 
 
-def _resolution_check(i1: int, r: int, warm: bool, tok_sel: int, call_present: bool, call_sel: int, dt: int) -> bool:
+def _resolution_check(i1: int, r: int, warm: bool, tok_sel: int, call_present: bool, call_sel: int, dt: int, with_cs: bool = True) -> bool:
     i1, r, tok_sel = _pick_concrete(i1, 4), _pick_concrete(r, 4), _pick_concrete(tok_sel, 6)
-    app, (cur1, call1), (cur2, call2) = _scenario(i1, r, warm)
+    app, (cur1, call1), (cur2, call2) = _scenario(i1, r, warm, with_cs)
     auth = _IDS[r]
     cursor_slot = [cur1, cur2, call1, _relabel(call2, st._CURSOR_TOKEN_VERSION), _foreign(cur2), _GARBAGE][tok_sel]
     call_opts = [call1, call2, cur2, _relabel(cur2, st._CALL_TOKEN_VERSION), _foreign(call2), _GARBAGE, cur1]
@@ -671,7 +674,8 @@ def _resolution_check(i1: int, r: int, warm: bool, tok_sel: int, call_present: b
         and state_obj.payload == want_state
         and state_bytes == want_state
         and resolved.stream_id == "sid%d" % (2 * k - 1)
-        and resolved.call_state.payload == b"cs%d" % k
+        and ((resolved.call_state is None) if not with_cs else resolved.call_state.payload == b"cs%d" % k)
+        and resolved.input_schema == tc.FakeSchema(b"S:in%d" % k)
         and resolved.output_schema == tc.FakeSchema(b"S:out%d" % k)
         and state_obj.call_state is resolved.call_state
     )
@@ -680,11 +684,13 @@ def _resolution_check(i1: int, r: int, warm: bool, tok_sel: int, call_present: b
 _D_STUBS = [*tc.TOKEN_STUBS, *tc.DISPATCH_STUBS]
 
 
-def _replay_resolution(warm: bool):  # type: ignore[no-untyped-def]
+def _replay_resolution(warm: bool, with_cs: bool = True):  # type: ignore[no-untyped-def]
+    real_state = tc.RealStateA if with_cs else tc.RealStateB  # RealStateB declares no call state
+
     def run(args: dict) -> str | None:
         i1, r, tok_sel, call_present, call_sel, dt = args["i1"], args["r"], args["tok_sel"], args["call_present"], args["call_sel"], args["dt"]
         want = _expected(i1, r, warm, tok_sel, call_present, lambda: call_sel, dt)
-        with tc.RealWorld({"m": tc.RealStateA}, _KEY, _TTL, 8 if warm else 0, now=100) as w, tc.RealWorld({"m": tc.RealStateA}, b"other-key", _TTL, 0, now=100) as other:
+        with tc.RealWorld({"m": real_state}, _KEY, _TTL, 8 if warm else 0, now=100) as w, tc.RealWorld({"m": real_state}, b"other-key", _TTL, 0, now=100) as other:
             s1 = w.init("m", _IDS[i1])
             s2 = w.init("m", _IDS[r])
             f2 = other.init("m", _IDS[r])
@@ -697,7 +703,7 @@ def _replay_resolution(warm: bool):  # type: ignore[no-untyped-def]
                 return None
             return f"request that must be rejected with 400 {want[1]!r} gave {got[:3]!r} (requester {_IDS[r]!r}, stream-1 owner {_IDS[i1]!r}, cursor slot {tok_sel}, call slot {call_sel if call_present else None}, warm={warm})"
         sk = (s1, s2)[want[1] - 1]
-        if got[0] == "ok" and got[2].stream_id == sk["stream_id"] and got[2].call_state.tag == sk["tag"]:
+        if got[0] == "ok" and got[2].stream_id == sk["stream_id"] and (got[2].call_state.tag if got[2].call_state is not None else None) == sk["tag"]:
             return None
         return f"request that must be served with stream {want[1]} gave {got[:3]!r}"
 
@@ -828,3 +834,26 @@ def crypto_envelope_opens_exactly_what_it_sealed(payload: bytes, mode: int, pos:
     if genuine:
         return got == payload
     return got is None
+
+
+_NOCS_BOUND = "streams whose method returns NO call state (empty call-state segment): 4x4 identities, cursor slot = a genuine cursor of stream 1 / stream 2, (absent + 7) call-slot presentations, any request time >= /init; "
+
+
+@cond(q=60, t=300, stubs=_D_STUBS, encoded=[aps._unpack_and_recover_state, aps._resolve_call_from_token], bound=_NOCS_BOUND + "cold worker",
+      replay=_replay_resolution(False, False), signature=lambda a, c: "C12:resolution:cold:no-call-state")
+def resolution_order_cold_cache_without_call_state(i1: int, r: int, tok_sel: int, call_present: bool, call_sel: int, dt: int) -> bool:
+    """
+    pre: 0 <= i1 <= 3 and 0 <= r <= 3 and 0 <= tok_sel <= 1 and 0 <= call_sel <= 6 and 0 <= dt
+    post: _
+    """
+    return _resolution_check(i1, r, False, tok_sel, call_present, call_sel, dt, False)
+
+
+@cond(q=60, t=300, stubs=_D_STUBS, encoded=[aps._unpack_and_recover_state, aps._resolve_call_from_token], bound=_NOCS_BOUND + "warm worker",
+      replay=_replay_resolution(True, False), signature=lambda a, c: "C12:resolution:warm:no-call-state")
+def resolution_order_warm_cache_without_call_state(i1: int, r: int, tok_sel: int, call_present: bool, call_sel: int, dt: int) -> bool:
+    """
+    pre: 0 <= i1 <= 3 and 0 <= r <= 3 and 0 <= tok_sel <= 1 and 0 <= call_sel <= 6 and 0 <= dt
+    post: _
+    """
+    return _resolution_check(i1, r, True, tok_sel, call_present, call_sel, dt, False)
